@@ -223,7 +223,34 @@ def paths_fanout(design):
             got = pyrtl.fanout(w)
             if got != exp:
                 return dict(failed=True, observed=dict(wire=w.name, fanout=got), expected=exp)
+    # the analyses read the block of the wire they are given, whatever the working block is
+    pyrtl.reset_working_block()
+    other = pyrtl.Input(1, 'unrelated_input')
+    sink = pyrtl.Output(1, 'unrelated_output')
+    sink <<= other
+    for w in sorted(block.wirevector_set, key=lambda w: w.name):
+        exp = sum(1 for n in block.logic for a in n.args if a is w)
+        got = pyrtl.fanout(w)
+        if got != exp:
+            return dict(failed=True, observed=dict(wire=w.name, fanout_with_other_working_block=got), expected=exp)
     return dict(failed=False, observed='ok', expected='ok', pairs=pairs)
+
+
+@__import__('fam.designs', fromlist=['design']).design
+def near_tie(w=1):
+    """reconvergence of two branches whose default delays differ by less than 0.1 ps
+    (1-bit '&' 98.5 vs 1-bit '*' 98.57), and of two exactly tied branches"""
+    import pyrtl
+    a = pyrtl.Input(w, 'in0')
+    b = pyrtl.Input(w, 'in1')
+    x = a & b
+    y = (a * b)[0:w]
+    o = pyrtl.Output(w, 'out0')
+    o <<= x ^ y
+    z = a | b
+    z2 = b | a
+    o1 = pyrtl.Output(w, 'out1')
+    o1 <<= z & z2
 
 
 @__import__('fam.designs', fromlist=['design']).design
